@@ -17,6 +17,9 @@ def run(tier, seed):
     rng = random.Random(seed)
     q = tier == 'quick'
     cases = [dict(id=i, seed=rng.randrange(10 ** 9)) for i in range(240 if q else 16000)]
+    rp = replay_input()
+    if rp and rp['kind'] == 'argv':
+        cases.insert(0, dict(id=2 * 10 ** 6, seed=1, argv=list(rp['value'])))
     shards = [cases[k::NCPU] for k in range(NCPU) if cases[k::NCPU]]
     res = run_workers('cmd.c15', [dict(cases=s) for s in shards])
     good = []; n = sk = 0; why = {}
